@@ -122,6 +122,15 @@ func specStep(s specState, e cEvent) (specState, bool) {
 		return n, true
 	case "like":
 		return s, true
+	case "get": // FindById of document 0 of batch g: absent (count 0) or present with value v (count 1)
+		if e.res.err {
+			return s, true // reported separately
+		}
+		v, has := s[e.op.g][0]
+		if !has {
+			return s, e.res.count == 0
+		}
+		return s, e.res.count == 1 && e.res.docs == fmt.Sprint(v)
 	case "read":
 		return s, e.res.err || s.render() == e.res.docs
 	case "count":
@@ -188,6 +197,7 @@ func runConcStream(seed int64, n int, out, backendSpec string) *RunReport {
 				continue
 			}
 			env.st.yield = true
+			env.st.stall = true
 			db := env.db
 			db.CreateCollection("c")
 			if g.Bool() {
@@ -208,7 +218,9 @@ func runConcStream(seed int64, n int, out, backendSpec string) *RunReport {
 			plans := make([][]cOp, nclients)
 			for c := 0; c < nclients; c++ {
 				for j := 0; j < opsPer; j++ {
-					switch g.Intn(6) {
+					switch g.Intn(7) {
+					case 6:
+						plans[c] = append(plans[c], cOp{kind: "get", g: 1 + g.Intn(int(nextG)+1)})
 					case 0, 1:
 						plans[c] = append(plans[c], cOp{kind: "insert", g: int(atomic.AddInt32(&nextG, 1)), n: 2 + g.Intn(5)})
 					case 2:
@@ -255,6 +267,21 @@ func runConcStream(seed int64, n int, out, backendSpec string) *RunReport {
 							ev.res.err = db.DeleteById("c", concId(op.g, 0)) != nil
 						case "del":
 							ev.res.err = db.Delete(query.NewQuery("c").Where(query.Field("g").Eq(op.g))) != nil
+						case "get":
+							doc, err := db.FindById("c", concId(op.g, 0))
+							ev.res.err = err != nil
+							if err != nil {
+								f.failf("FindById failed under concurrency on %s: %v", be, err)
+							} else if doc != nil {
+								gi, _ := doc.Get("g").(int64)
+								ki, _ := doc.Get("k").(int64)
+								vi, isInt := doc.Get("v").(int64)
+								tag, _ := doc.Get("tag").(string)
+								if doc.ObjectId() != concId(op.g, 0) || int(gi) != op.g || ki != 0 || !isInt || tag != fmt.Sprintf("t%d", op.g) {
+									f.failf("FindById(%s) returned a document that was never written on %s: %s", concId(op.g, 0), be, clip(gValue(doc.AsMap()), 300))
+								}
+								ev.res.count, ev.res.docs = 1, fmt.Sprint(vi)
+							}
 						case "count":
 							cnt, err := db.Count(query.NewQuery("c"))
 							ev.res.err, ev.res.count = err != nil, cnt
@@ -326,6 +353,11 @@ func runConcStream(seed int64, n int, out, backendSpec string) *RunReport {
 					}
 				}
 			}
+			for _, ev := range events {
+				if ev.res.err && (ev.op.kind == "read" || ev.op.kind == "count" || ev.op.kind == "like") {
+					f.failf("a read-only operation (%s) failed under concurrency on %s", ev.op.kind, be)
+				}
+			}
 			nerr := 0
 			for _, ev := range events {
 				if ev.res.err {
@@ -354,6 +386,68 @@ func runConcStream(seed int64, n int, out, backendSpec string) *RunReport {
 			}
 			env.destroy()
 		}
+	}
+	// one batch beyond what a single badger transaction accepts (and a big one on the others): readers polling while it
+	// is written see none or all of it, and a refused batch leaves nothing
+	for _, be := range backendsOf(backendSpec) {
+		env, err := newEnv(be)
+		if err != nil {
+			continue
+		}
+		db := env.db
+		db.CreateCollection("huge")
+		const nb = 72
+		docs := make([]*d.Document, nb)
+		pad := strings.Repeat("x", 200000)
+		for i := range docs {
+			docs[i] = d.NewDocumentOf(map[string]interface{}{"_id": concId(900, i), "k": int64(i), "pad": pad})
+		}
+		var stop int32
+		seenCounts := map[int]bool{}
+		var smu sync.Mutex
+		var rg sync.WaitGroup
+		for r := 0; r < 3; r++ {
+			rg.Add(1)
+			go func(r int) {
+				defer rg.Done()
+				defer func() { recover() }()
+				for atomic.LoadInt32(&stop) == 0 {
+					var n int
+					if r == 0 {
+						n, _ = db.Count(query.NewQuery("huge"))
+					} else {
+						n = 0
+						db.ForEach(query.NewQuery("huge"), func(*d.Document) bool { n++; return true })
+					}
+					smu.Lock()
+					seenCounts[n] = true
+					smu.Unlock()
+				}
+			}(r)
+		}
+		var ierr error
+		okIns := withDeadline(120*time.Second, func() { ierr = db.Insert("huge", docs...) })
+		time.Sleep(5 * time.Millisecond)
+		atomic.StoreInt32(&stop, 1)
+		rg.Wait()
+		evals++
+		if !okIns {
+			f.failf("a 14 MB insert did not return on %s", be)
+		}
+		for n := range seenCounts {
+			if n != 0 && n != nb {
+				f.failf("readers polling during a 14 MB insert batch saw %d of its %d documents on %s (insert result: %v)", n, nb, be, ierr)
+			}
+		}
+		final, _ := db.Count(query.NewQuery("huge"))
+		if ierr != nil && final != 0 {
+			f.failf("a refused 14 MB insert batch (%v) left %d documents on %s", ierr, final, be)
+		}
+		if ierr == nil && final != nb {
+			f.failf("an accepted 14 MB insert batch stored %d of %d documents on %s", final, nb, be)
+		}
+		distinct[fmt.Sprintf("%s/hugebatch/%v", be, ierr != nil)] = true
+		env.destroy()
 	}
 	_ = clover.ErrDuplicateKey
 	return &RunReport{Stream: "conc", Seed: seed, Evaluations: evals, Distinct: len(distinct),
